@@ -98,7 +98,9 @@ Print Assumptions C10_masks_in_source.
 
 (* MAIN: TypeBlocks.equals AS THE SOURCE HAS IT NOW computes the specification for every pair of block layouts,
    any number of columns (none included), any placement of NaN/NaT/None -- three operand paths, mask, block walk.
-   Hypotheses: the tables are rectangular (tb_wf) and NumPy does not rewrite NaT to None on the way (nat_dom). *)
+   Hypotheses: the tables are rectangular (tb_wf) and no datetime64 column holding NaT faces an object column
+   (nat_dom, layout-free: NumPy rewrites that NaT to None, so NaT "equals" None there -- a pair of different
+   missing values, which the property does not determine). *)
 Theorem C10_tb_refines : forall o a b,
   tb_wf a && tb_wf b && nat_dom a b = true ->
   M_tb_equals c10_cfg_tb o a b = Ok (S_tb_equals o a b).
@@ -124,13 +126,13 @@ Theorem C10_tb_refines_any_mask : forall c o a b,
 Proof. exact tb_refines. Qed.
 Print Assumptions C10_tb_refines_any_mask.
 
-(* the answer does not depend on the block layout of either operand *)
+(* the answer of the source's TypeBlocks.equals depends on the columns only, not on the block layout of either operand *)
 Theorem C10_tb_layout_independent : forall o a b a' b',
-  tb_dom c10_cfg_tb o a b = true -> tb_dom c10_cfg_tb o a' b' = true ->
+  tb_wf a && tb_wf b && tb_wf a' && tb_wf b' = true -> nat_dom a b = true ->
   tb_cols a = tb_cols a' -> tb_cols b = tb_cols b' -> tb_rows a = tb_rows a' -> tb_rows b = tb_rows b' ->
   (tb_oid a =? tb_oid b) = (tb_oid a' =? tb_oid b') ->
   M_tb_equals c10_cfg_tb o a b = M_tb_equals c10_cfg_tb o a' b'.
-Proof. exact (tb_layout_independent c10_cfg_tb). Qed.
+Proof. exact tb_layout_independent_correct. Qed.
 Print Assumptions C10_tb_layout_independent.
 
 Theorem C10_frame_refines : forall o a b,
